@@ -91,10 +91,10 @@ func (d *memDir) Persist(string, uint64, index.WriterTo, chan struct{}) error {
 	return fmt.Errorf("read only")
 }
 func (d *memDir) Remove(string, uint64) error { return nil }
-func (d *memDir) Stats() (uint64, uint64)      { return 0, 0 }
-func (d *memDir) Sync() error                  { return nil }
-func (d *memDir) Lock() error                  { return nil }
-func (d *memDir) Unlock() error                { return nil }
+func (d *memDir) Stats() (uint64, uint64)     { return 0, 0 }
+func (d *memDir) Sync() error                 { return nil }
+func (d *memDir) Lock() error                 { return nil }
+func (d *memDir) Unlock() error               { return nil }
 
 func memConfig(d *memDir) index.Config {
 	return index.DefaultConfigWithDirectory(func() index.Directory { return d })
